@@ -8,10 +8,15 @@
 //
 // op:     dial mode=dead|live id=<builtin|-> ips=<n> scid=<n> dcid=<n> ipn=<u64> pnl1=<n> pnls=<a.b|-> tok=<-|x:hex|p:hex:len>
 //              udp=<n> plans=<c/s,c/s|-> fb=<builder> ch=<base>+<pad> script=<hex>
-// result: err=<class> L=<clienthello bytes> max=<max packet size> n=<datagrams> [hs=<..> srv=<pn.pn..>] | <rawlen>:<status>:<hex> | ...
+// result: err=<class> L=<clienthello bytes> max=<max packet size> n=<datagrams> [hs=<..> srv=<pn.pn..>] after=<spec as described after the dial> slack=<spare capacity of the spec's slices> | <rawlen>:<status>:<hex> | ...
+//
+// op:     overlap <same configuration keys> gap=<ms> script=<hex>   — two dials with ONE spec value on a dead path: A at t=0
+//              (kept alive through its first PTO retransmissions), B at t=gap from a second client address
+// result: err=<A>/<B> tokoffs=<a.b|-> nA=<n> nB=<n> after=<..> slack=<..> | <A|B>:<ms>:<dcid hex|->:<token hex|-> | ...   (every Initial datagram, in order)
 package initial
 
 import (
+	"bytes"
 	"context"
 	"crypto/rand"
 	"encoding/binary"
@@ -57,6 +62,7 @@ type scriptReader struct {
 	reads  []int
 	nreads int
 	tokOff int // stream position of the read issued by (*dummyTokenStore).Pop, -1 if none
+	tokAll []int // stream positions of every such read, in order (overlapping dials)
 }
 
 func newScriptReader(script []byte) *scriptReader {
@@ -71,8 +77,11 @@ func newScriptReader(script []byte) *scriptReader {
 func (s *scriptReader) Read(p []byte) (int, error) {
 	s.mu.Lock()
 	defer s.mu.Unlock()
-	if s.nreads < 200 && s.tokOff < 0 && calledFromTokenPop() {
-		s.tokOff = s.pos
+	if s.nreads < 200 && len(s.tokAll) < 4 && calledFromTokenPop() {
+		if s.tokOff < 0 {
+			s.tokOff = s.pos
+		}
+		s.tokAll = append(s.tokAll, s.pos)
 	}
 	s.nreads++
 	for i := range p {
@@ -91,13 +100,17 @@ func (s *scriptReader) Read(p []byte) (int, error) {
 
 // calledFromTokenPop reports whether the current read of the random source was issued by the spec's
 // synthesising token store (recovered witness: where in the stream the token's random tail was drawn).
+var tokenPopRe = regexp.MustCompile(`^github\.com/refraction-networking/uquic\.\(\*?\w+\)\.Pop$`)
+
 func calledFromTokenPop() bool {
 	var pcs [32]uintptr
 	n := runtime.Callers(3, pcs[:])
 	fr := runtime.CallersFrames(pcs[:n])
 	for {
 		f, more := fr.Next()
-		if strings.HasSuffix(f.Function, "(*dummyTokenStore).Pop") {
+		// any TokenStore of the quic package itself (whatever the synthesising store's type is called); the
+		// driver's own explicit store lives in this package and never reads the random source
+		if tokenPopRe.MatchString(f.Function) {
 			return true
 		}
 		if !more {
@@ -125,6 +138,9 @@ type cfg struct {
 	fb     string
 	ch     string
 	shr    bool
+	slk    bool // the spec's slices are windows on caller-owned buffers with spare capacity (canaries behind them)
+	shs    bool // ONE *QUICSpec serves every dial of the case with this configuration
+	gap    int  // overlap op: virtual milliseconds between the start of dial A and of dial B
 	script []byte
 }
 
@@ -143,7 +159,8 @@ func atoi(s string) int { n, _ := strconv.Atoi(s); return n }
 func parseCfg(op string) (cfg, error) {
 	m := kv(op)
 	c := cfg{mode: m["mode"], id: m["id"], ips: atoi(m["ips"]), scid: atoi(m["scid"]), dcid: atoi(m["dcid"]),
-		pnl1: atoi(m["pnl1"]), tok: m["tok"], udp: atoi(m["udp"]), fb: m["fb"], ch: m["ch"], shr: m["shr"] == "1"}
+		pnl1: atoi(m["pnl1"]), tok: m["tok"], udp: atoi(m["udp"]), fb: m["fb"], ch: m["ch"], shr: m["shr"] == "1",
+		slk: m["slk"] == "1", shs: m["shs"] == "1", gap: atoi(m["gap"])}
 	var err error
 	if c.ipn, err = strconv.ParseUint(m["ipn"], 10, 64); err != nil {
 		return c, err
@@ -167,6 +184,9 @@ func parseCfg(op string) (cfg, error) {
 	}
 	if c.mode != "dead" && c.mode != "live" {
 		return c, errors.New("bad mode")
+	}
+	if c.gap < 0 || c.gap > 400 {
+		return c, errors.New("bad gap")
 	}
 	return c, nil
 }
@@ -352,10 +372,11 @@ func describe(s *quic.QUICSpec) (string, bool) {
 		pnls = strings.Join(p, ".")
 	}
 	tok := "-"
-	if ip.TokenStore != nil {
+	if f, isFixed := ip.TokenStore.(*fixedTokenStore); isFixed {
+		tok = "x:" + hex.EncodeToString(f.data)
+	} else if ip.TokenStore != nil {
 		return "", false
-	}
-	if ip.ClientTokenLength != 0 || len(ip.ClientTokenPrefix) != 0 {
+	} else if ip.ClientTokenLength != 0 || len(ip.ClientTokenPrefix) != 0 {
 		tok = fmt.Sprintf("p:%s:%d", hex.EncodeToString(ip.ClientTokenPrefix), ip.ClientTokenLength)
 	}
 	plans := "-"
@@ -378,6 +399,109 @@ type fixedTokenStore struct{ data []byte }
 
 func (f *fixedTokenStore) Pop(string) *quic.ClientToken    { return quic.NewClientToken(f.data) }
 func (f *fixedTokenStore) Put(string, *quic.ClientToken) {}
+
+// ---------------------------------------------------------------- caller-owned buffers behind the spec's slices
+
+const canary = 0xc5
+
+var canaryPlan = quic.InitialPacketPlan{CryptoLength: 0xc5c5, PacketSize: 0xc5c5}
+
+// specBufs are the caller's buffers the slices of a spec are windows on: the content, then spare capacity
+// filled with a canary. A dial may read the windows; everything behind them (and the windows themselves)
+// belongs to the caller and to every other dial with this spec value.
+type specBufs struct {
+	prefix []byte
+	pnls   []quic.PacketNumberLen
+	plans  []quic.InitialPacketPlan
+	tok    []byte
+	npre, npnls, nplans, ntok int
+}
+
+// addSlack re-homes every slice of the header half of the spec into a buffer with spare capacity.
+func addSlack(s *quic.QUICSpec) *specBufs {
+	ip := &s.InitialPacketSpec
+	b := &specBufs{}
+	if ip.ClientTokenPrefix != nil || ip.ClientTokenLength > 0 {
+		b.npre = len(ip.ClientTokenPrefix)
+		b.prefix = bytes.Repeat([]byte{canary}, b.npre+80)
+		copy(b.prefix, ip.ClientTokenPrefix)
+		ip.ClientTokenPrefix = b.prefix[:b.npre]
+	}
+	if len(ip.InitPacketNumberLengths) > 0 {
+		b.npnls = len(ip.InitPacketNumberLengths)
+		b.pnls = make([]quic.PacketNumberLen, b.npnls+4)
+		for i := range b.pnls {
+			b.pnls[i] = canary
+		}
+		copy(b.pnls, ip.InitPacketNumberLengths)
+		ip.InitPacketNumberLengths = b.pnls[:b.npnls]
+	}
+	if len(ip.InitialPackets) > 0 {
+		b.nplans = len(ip.InitialPackets)
+		b.plans = make([]quic.InitialPacketPlan, b.nplans+2)
+		for i := range b.plans {
+			b.plans[i] = canaryPlan
+		}
+		copy(b.plans, ip.InitialPackets)
+		ip.InitialPackets = b.plans[:b.nplans]
+	}
+	if f, ok := ip.TokenStore.(*fixedTokenStore); ok {
+		b.ntok = len(f.data)
+		b.tok = bytes.Repeat([]byte{canary}, b.ntok+16)
+		copy(b.tok, f.data)
+		f.data = b.tok[:b.ntok]
+	}
+	return b
+}
+
+// slackHex renders what is behind the windows now: prefix/pn lengths/plans/explicit token ("-" without slack).
+func (b *specBufs) slackHex() string {
+	if b == nil {
+		return "-"
+	}
+	var pn, pl []byte
+	for _, l := range b.pnls[b.npnls:] {
+		pn = append(pn, byte(l))
+	}
+	for _, p := range b.plans[b.nplans:] {
+		if p == canaryPlan {
+			pl = append(pl, canary)
+		} else {
+			pl = append(pl, 0)
+		}
+	}
+	return hex.EncodeToString(b.prefix[b.npre:]) + "/" + hex.EncodeToString(pn) + "/" + hex.EncodeToString(pl) + "/" + hex.EncodeToString(b.tok[b.ntok:])
+}
+
+// specFor returns the spec a dial uses: a fresh one, or (shs=1) the case's long-lived value for this
+// configuration — the way one UTransport.QUICSpec serves many dials.
+func (rn *runner) specFor(c cfg) (*quic.QUICSpec, *specBufs, error) {
+	key := fmt.Sprint(c.id, c.scid, c.dcid, c.ipn, c.pnl1, c.pnls, c.tok, c.udp, c.plans, c.fb, c.ch, c.slk)
+	if c.shs && rn.spec != nil && rn.specKey == key {
+		return rn.spec, rn.bufs, nil
+	}
+	spec, err := buildSpec(c)
+	if err != nil {
+		return nil, nil, err
+	}
+	var bufs *specBufs
+	if c.slk {
+		bufs = addSlack(spec)
+	}
+	if c.shs {
+		rn.spec, rn.bufs, rn.specKey = spec, bufs, key
+	}
+	return spec, bufs, nil
+}
+
+// afterDial renders the spec as it reads now (op-line syntax, '&' for ' ') and the bytes behind its windows.
+func afterDial(spec *quic.QUICSpec, bufs *specBufs) string {
+	d, ok := describe(spec)
+	if !ok {
+		d = "undescribable"
+	}
+	return fmt.Sprintf("after=%s slack=%s", strings.ReplaceAll(d, " ", "&"), bufs.slackHex())
+}
 
 // clientHello returns a fresh ClientHelloSpec: <base>+<pad> where base is one of the built-in
 // fingerprints' TLS specs and pad the size of an extra (ignored) extension that scales the
@@ -651,7 +775,7 @@ func (t qtrace) AddProducer() qlogwriter.Recorder { return t.r }
 func (t qtrace) SupportsSchemas(string) bool       { return true }
 
 func (rn *runner) dial(c cfg) string {
-	spec, err := buildSpec(c)
+	spec, bufs, err := rn.specFor(c)
 	if err != nil {
 		return "bad-op " + err.Error()
 	}
@@ -747,7 +871,7 @@ func (rn *runner) dial(c cfg) string {
 		}
 		L, maxSize := quic.VerifInitialCryptoWritten()
 		var sb strings.Builder
-		fmt.Fprintf(&sb, "err=%s L=%d max=%d tokoff=%d n=%d", errClass(derr), L, maxSize, sr.tokOff, len(flight))
+		fmt.Fprintf(&sb, "err=%s L=%d max=%d tokoff=%d n=%d %s", errClass(derr), L, maxSize, sr.tokOff, len(flight), afterDial(spec, bufs))
 		if c.mode == "live" {
 			var pns []string
 			for _, ev := range srvLog.Events {
@@ -786,12 +910,168 @@ func (rn *runner) dial(c cfg) string {
 	return res
 }
 
+// ---------------------------------------------------------------- two overlapping dials with one spec value
+
+var clientAddrB = &net.UDPAddr{IP: net.ParseIP("1.0.0.3"), Port: 9003}
+
+// longHeaderFields reads what a long-header packet shows WITHOUT removing any protection: type, connection IDs
+// and (Initial) the token. ok is false for anything that is not a version-1 Initial packet.
+func longHeaderFields(d []byte) (dcid, token []byte, ok bool) {
+	if len(d) < 7 || d[0]&0x80 == 0 || d[0]&0x30 != 0 || binary.BigEndian.Uint32(d[1:5]) != 1 {
+		return nil, nil, false
+	}
+	off := 5
+	dl := int(d[off])
+	off++
+	if dl > 20 || off+dl >= len(d) {
+		return nil, nil, false
+	}
+	dcid = d[off : off+dl]
+	off += dl
+	sl := int(d[off])
+	off++
+	if sl > 20 || off+sl > len(d) {
+		return nil, nil, false
+	}
+	off += sl
+	tl, n, vok := readVarint(d, off)
+	if !vok || uint64(off+n)+tl > uint64(len(d)) {
+		return nil, nil, false
+	}
+	return dcid, d[off+n : off+n+int(tl)], true
+}
+
+type ovNet struct {
+	mu    sync.Mutex
+	start time.Time
+	pkts  []ovDgram
+}
+
+type ovDgram struct {
+	who  byte
+	at   time.Duration
+	data []byte
+}
+
+func (n *ovNet) SendPacket(p simnet.Packet) error {
+	who := byte('A')
+	if p.From.String() == clientAddrB.String() {
+		who = 'B'
+	}
+	n.mu.Lock()
+	if len(n.pkts) < 64 {
+		n.pkts = append(n.pkts, ovDgram{who, time.Since(n.start), append([]byte(nil), p.Data...)})
+	}
+	n.mu.Unlock()
+	return nil // a dead path: nothing is delivered
+}
+func (n *ovNet) AddNode(net.Addr, simnet.PacketReceiver) {}
+func (n *ovNet) RemoveNode(net.Addr)                     {}
+
+func hexOrDash(b []byte) string {
+	if len(b) == 0 {
+		return "-"
+	}
+	return hex.EncodeToString(b)
+}
+
+// overlap: connection A dials at t=0 and is kept alive for 700 ms of virtual time (its Initial flight is
+// retransmitted on PTO); connection B dials at t=gap with the SAME *QUICSpec from a second client address and
+// gives up after 100 ms. Every Initial datagram of both is reported with the token it shows on the wire.
+func (rn *runner) overlap(c cfg) string {
+	spec, bufs, err := rn.specFor(c)
+	if err != nil {
+		return "bad-op " + err.Error()
+	}
+	var res string
+	synctest.Test(theT, func(t *testing.T) {
+		nw := &ovNet{start: time.Now()}
+		sim := &simnet.Simnet{Router: nw}
+		link := simnet.NodeBiDiLinkSettings{Latency: 10 * time.Millisecond,
+			Downlink: simnet.LinkSettings{MTU: 65535}, Uplink: simnet.LinkSettings{MTU: 65535}}
+		pcA := sim.NewEndpoint(e2e.ClientAddr, link)
+		pcB := sim.NewEndpoint(clientAddrB, link)
+		if err := sim.Start(); err != nil {
+			res = "bad-op start " + err.Error()
+			return
+		}
+		trA := &quic.Transport{Conn: pcA, StatelessResetKey: &quic.StatelessResetKey{1}, TokenGeneratorKey: &quic.TokenGeneratorKey{2}}
+		trB := &quic.Transport{Conn: pcB, StatelessResetKey: &quic.StatelessResetKey{3}, TokenGeneratorKey: &quic.TokenGeneratorKey{4}}
+		utA := &quic.UTransport{Transport: trA, QUICSpec: spec}
+		utB := &quic.UTransport{Transport: trB, QUICSpec: spec}
+		sr := newScriptReader(c.script)
+		saved := rand.Reader
+		rand.Reader = sr
+		defer func() { rand.Reader = saved }()
+
+		var errA, errB error
+		doneA := make(chan struct{})
+		go func() {
+			defer close(doneA)
+			ctx, cancel := context.WithTimeout(context.Background(), 700*time.Millisecond)
+			defer cancel()
+			var conn *quic.Conn
+			if conn, errA = utA.Dial(ctx, e2e.ServerAddr, e2e.ClientTLSConfig(), &quic.Config{InitialPacketSize: uint16(c.ips)}); conn != nil {
+				conn.CloseWithError(0, "")
+			}
+		}()
+		time.Sleep(time.Duration(c.gap) * time.Millisecond)
+		ctx, cancel := context.WithTimeout(context.Background(), 100*time.Millisecond)
+		conn, errB := utB.Dial(ctx, e2e.ServerAddr, e2e.ClientTLSConfig(), &quic.Config{InitialPacketSize: uint16(c.ips)})
+		cancel()
+		if conn != nil {
+			conn.CloseWithError(0, "")
+		}
+		<-doneA
+		time.Sleep(50 * time.Millisecond)
+		trA.Close()
+		trB.Close()
+		pcA.Close()
+		pcB.Close()
+		sim.Close()
+		synctest.Wait()
+
+		nw.mu.Lock()
+		pkts := nw.pkts
+		nw.mu.Unlock()
+		var nA, nB int
+		var body strings.Builder
+		for _, d := range pkts {
+			dcid, token, ok := longHeaderFields(d.data)
+			if !ok {
+				continue
+			}
+			if d.who == 'A' {
+				nA++
+			} else {
+				nB++
+			}
+			fmt.Fprintf(&body, " | %c:%d:%s:%s", d.who, d.at.Milliseconds(), hexOrDash(dcid), hexOrDash(token))
+		}
+		offs := "-"
+		if len(sr.tokAll) > 0 {
+			var o []string
+			for _, x := range sr.tokAll {
+				o = append(o, strconv.Itoa(x))
+			}
+			offs = strings.Join(o, ".")
+		}
+		res = fmt.Sprintf("err=%s/%s tokoffs=%s nA=%d nB=%d %s%s", errClass(errA), errClass(errB), offs, nA, nB, afterDial(spec, bufs), body.String())
+	})
+	return res
+}
+
 // ---------------------------------------------------------------- generator
 
 type runner struct {
 	base   string // config part of the op line for this case
 	liveP  int
+	ovP    int // percentage of overlap ops
 	shared *quic.Config // the caller's long-lived *Config, reused by every dial of the case that says shr=1
+	// the caller's long-lived *QUICSpec (shs=1) with the buffers its slices are windows on
+	spec    *quic.QUICSpec
+	bufs    *specBufs
+	specKey string
 }
 
 var ipnChoices = []uint64{0, 1, 2, 255, 300, 1 << 31, 1<<62 - 1, 1 << 62, 1<<64 - 1}
@@ -1040,6 +1320,13 @@ func (rn *runner) GenOp(r *vh.Rand, i int) string {
 		if rn.base == "" {
 			return ""
 		}
+		// Round 4: the spec's slices are windows on caller-owned buffers with spare capacity (60%), and ONE spec
+		// value serves every dial of the case (50%)
+		rn.base += fmt.Sprintf(" slk=%d shs=%d", b2i(r.Chance(60)), b2i(r.Bool()))
+		rn.ovP = 6
+		if strings.Contains(rn.base, " tok=p:") || strings.HasPrefix(rn.base, "id=Chrome") {
+			rn.ovP = 14
+		}
 	}
 	mode := "dead"
 	if r.Chance(rn.liveP) {
@@ -1065,11 +1352,22 @@ func (rn *runner) GenOp(r *vh.Rand, i int) string {
 			base = tokRe.ReplaceAllString(base, " tok=-")
 		}
 	}
+	if r.Chance(rn.ovP) {
+		// two dials with one spec value that OVERLAP: B's token is made while A still has Initial packets to send
+		return fmt.Sprintf("overlap mode=dead %s gap=%d script=%s", base, []int{1, 5, 30, 150, 250}[r.Intn(5)], hex.EncodeToString(script))
+	}
 	return fmt.Sprintf("dial mode=%s %s script=%s", mode, base, hex.EncodeToString(script))
 }
 
+func b2i(b bool) int {
+	if b {
+		return 1
+	}
+	return 0
+}
+
 func (rn *runner) Exec(op string) string {
-	if !strings.HasPrefix(op, "dial ") {
+	if !strings.HasPrefix(op, "dial ") && !strings.HasPrefix(op, "overlap ") {
 		return "bad-op"
 	}
 	if os.Getenv("VH_DEBUG_OPS") != "" {
@@ -1101,6 +1399,9 @@ func (rn *runner) Exec(op string) string {
 		}
 	}()
 	defer close(done)
+	if strings.HasPrefix(op, "overlap ") {
+		return rn.overlap(c)
+	}
 	return rn.dial(c)
 }
 
